@@ -76,6 +76,11 @@ def scaling(prog, fn):
             if s["s"] == "assign" and s["rhs"]["rv"] == "bin" and s["rhs"]["op"].replace("WithOverflow", "") in ("Mul", "Div"):
                 for side in ("a", "b"):
                     v = const_val(s["rhs"][side])
+                    if v is None and s["rhs"][side].get("k") in ("cp", "mv"):
+                        # a named constant, possibly cast: `v * PIECE_ALIGN as u64`
+                        from . import k7 as _k7
+                        c_ = _k7.Canon(prog, fn).op(s["rhs"][side], bi)
+                        v = c_[1] if c_[0] == "c" else None
                     if isinstance(v, int) and not isinstance(v, bool):
                         out.append([s["rhs"]["op"].replace("WithOverflow", ""), v])
     for c in prog.closures_of(fn):
@@ -142,7 +147,9 @@ def hash_fingerprint(prog):
             for s in blk["stmts"]:
                 if s["s"] == "assign" and s["rhs"]["rv"] == "bin" and s["rhs"]["op"] in ("Shl", "Shr", "BitOr", "BitXor"):
                     d["shifts"].append([s["rhs"]["op"]] + ([const_val(s["rhs"]["b"])] if s["rhs"]["op"] in ("Shl", "Shr") else []))
-        d["calls"].sort()
+        # as *sets*: hoisting the state update out of the two arms (one mixer call instead of two) changes nothing
+        d["calls"] = sorted([list(x) for x in {tuple(e) for e in d["calls"]}])
+        d["shifts"] = sorted([list(x) for x in {tuple(e) for e in d["shifts"]}])
         fp["hasher_write"] = d
     fin = [f for f in prog.fns.values() if f.crate == "abyssiniandb" and f.name == "finish" and f.impl_trait == "core::hash::Hasher"]
     if len(fin) == 1:
